@@ -11,7 +11,7 @@ def load_matrix(*paths):
             if len(w) >= 3 and w[0].startswith('C'): m[(w[0], w[1])] = ' '.join(w[2:]) + ((' -- first reports: ' + l.split('::', 1)[1].strip()[:300]) if '::' in l else '')
     return m
 rows = []
-for batch, root, mat in (('b1', '/tmp/mut/out', ('/tmp/mut/matrix.log', '/tmp/mut/matrix_rerun.log', '/tmp/mut/matrix_full.log')), ('b2', '/tmp/mut2/out', ('/tmp/mut2/matrix.log', '/tmp/mut2/matrix_rerun.log', '/tmp/mut2/matrix_full.log', '/tmp/mut2/matrix_rerun2.log')), ('b3', '/tmp/mut3/out', ('/tmp/mut3/matrix.log', '/tmp/mut3/matrix_rerun.log')), ('b4', '/tmp/mut4/out', ('/tmp/mut4/matrix.log', '/tmp/mut4/matrix_rerun.log')), ('b5', '/tmp/mut5/out', ('/tmp/mut5/matrix.log', '/tmp/mut5/matrix_rerun.log')), ('b6', '/tmp/mut6/out', ('/tmp/mut6/matrix.log', '/tmp/mut6/matrix_rerun.log'))):
+for batch, root, mat in (('b1', '/tmp/mut/out', ('/tmp/mut/matrix.log', '/tmp/mut/matrix_rerun.log', '/tmp/mut/matrix_full.log')), ('b2', '/tmp/mut2/out', ('/tmp/mut2/matrix.log', '/tmp/mut2/matrix_rerun.log', '/tmp/mut2/matrix_full.log', '/tmp/mut2/matrix_rerun2.log')), ('b3', '/tmp/mut3/out', ('/tmp/mut3/matrix.log', '/tmp/mut3/matrix_rerun.log')), ('b4', '/tmp/mut4/out', ('/tmp/mut4/matrix.log', '/tmp/mut4/matrix_rerun.log')), ('b5', '/tmp/mut5/out', ('/tmp/mut5/matrix.log', '/tmp/mut5/matrix_rerun.log')), ('b6', '/tmp/mut6/out', ('/tmp/mut6/matrix.log', '/tmp/mut6/matrix_rerun.log')), ('b7', '/tmp/mut7/out', ('/tmp/mut7/matrix.log', '/tmp/mut7/matrix_rerun.log'))):
     matrix = load_matrix(*mat)
     if not os.path.isdir(root): continue
     for pid in sorted(os.listdir(root)):
